@@ -33,6 +33,7 @@ def declare(rep):
     rep.rule("R10.1", "children*: iterator over the table with start list = root of the sub-tree the selector covers (certificate walk)")
     rep.rule("R10.3", "remove_children: detaches exactly that sub-tree; only its slots are emptied/freed; zero-length → clear")
     rep.rule("R10.4", "retain: predicate once per entry, own (prefix, value), post-order; value removed iff predicate false")
+    rep.rule("R01.6", "(shared with C01) no slot leaves the tree while it may still hold entries")
 
 
 def subtree_root(W):
@@ -232,6 +233,7 @@ def run_config(ctx, rep, cfg, F):
             if extra:
                 rep.bad("R10.4", where, "removed-without-predicate", "%s removes the value of %s without asking the predicate" % (where, sorted(extra)), config=cfg)
                 ok = False
+            c01.lost_entries(rep, F, where, p)
             if ok:
                 n_cb += len(seen)
                 rep.ok("R10.4", where, "entries=%d" % len(valued),
